@@ -162,6 +162,9 @@ func c18Script(k *c18Kind, idx []int, mode string, single bool, op string) strin
 		sb.WriteString(k.Vals[i].Expr)
 	}
 	sb.WriteString("\n]\nlet n = vs.length\nlet out: [Int] = []\n")
+	if mode == "hash" {
+		fmt.Fprintf(&sb, "var d18: {%s: Int} = {}\n", k.Type)
+	}
 	if mode == "vals" {
 		sb.WriteString("out.append(n)\nreturn out\n}\n")
 		return sb.String()
@@ -181,13 +184,19 @@ func c18Script(k *c18Kind, idx []int, mode string, single bool, op string) strin
 		}
 		body += "out.append(r)\n"
 	case "hash":
-		body = fmt.Sprintf(`let d: {%s: Int} = {vs[i]: 1}
-d[vs[j]] = 2
-var r = d.length * 100 + (d[vs[i]] ?? 0) * 10 + (d[vs[j]] ?? 0)
-if d.containsKey(vs[i]) { r = r + 1000 }
-if d.containsKey(vs[j]) { r = r + 2000 }
+		// One dictionary is reused for all pairs (emptied after each pair; replaced if the removals
+		// left something behind): a fresh dictionary per pair would allocate a slab per pair and make
+		// the runtime's storage validation quadratic in the number of pairs.
+		body = `d18[vs[i]] = 1
+d18[vs[j]] = 2
+var r = d18.length * 100 + (d18[vs[i]] ?? 0) * 10 + (d18[vs[j]] ?? 0)
+if d18.containsKey(vs[i]) { r = r + 1000 }
+if d18.containsKey(vs[j]) { r = r + 2000 }
+d18.remove(key: vs[i])
+d18.remove(key: vs[j])
+if d18.length != 0 { d18 = {} }
 out.append(r)
-`, k.Type)
+`
 	default:
 		panic("c18: unknown mode " + mode)
 	}
@@ -300,12 +309,13 @@ func c18RunScript(src string, vm bool) c18Obs {
 		// The checker is the arbiter of which types are equatable / comparable /
 		// usable as dictionary keys: a rejection made only of these two error
 		// kinds means "this static type does not support the operation".
-		onlyOperand := len(ce.Errors) > 0
+		// (the value list itself was validated by the "vals" script before, so further
+		// errors next to one of these two are consequences of the refused type.)
+		onlyOperand := false
 		for _, e := range ce.Errors {
 			switch e.(type) {
 			case *sema.InvalidBinaryOperandsError, *sema.InvalidDictionaryKeyTypeError:
-			default:
-				onlyOperand = false
+				onlyOperand = true
 			}
 		}
 		if onlyOperand {
@@ -664,7 +674,7 @@ func c18JudgeKind(k *c18Kind, st *c18Stats) []c18Viol {
 						}
 						equal = true
 					}
-					obs := fmt.Sprintf("d = {a: 1}; d[b] = 2 gives length %d, d[a] = %d, d[b] = %d, containsKey(a) = %v, containsKey(b) = %v (0 = nil)", length, da, db, ca, cb)
+					obs := fmt.Sprintf("d = {}; d[a] = 1; d[b] = 2 gives length %d, d[a] = %d, d[b] = %d, containsKey(a) = %v, containsKey(b) = %v (0 = nil)", length, da, db, ca, cb)
 					if equal {
 						nMerged++
 						if i < j {
@@ -973,6 +983,22 @@ func c18IsCharacter(s string) bool {
 	return s != "" && uniseg.GraphemeClusterCount(s) == 1 && uniseg.GraphemeClusterCount(norm.NFC.String(s)) == 1
 }
 
+// c18Embeds: "x"+s+"y" segments into exactly the three clusters x, s, y
+// (false e.g. when s starts with a combining mark, which joins the x).
+func c18Embeds(s string) bool {
+	for _, t := range []string{"x" + s + "y", norm.NFC.String("x" + s + "y")} {
+		g := uniseg.NewGraphemes(t)
+		var parts []string
+		for g.Next() {
+			parts = append(parts, g.Str())
+		}
+		if len(parts) != 3 || parts[0] != "x" || parts[2] != "y" || norm.NFC.String(parts[1]) != norm.NFC.String(s) {
+			return false
+		}
+	}
+	return true
+}
+
 func c18CharacterKind(thorough bool) *c18Kind {
 	k := &c18Kind{Name: "Character", Sig: "Character", Fam: "Character", Type: "Character"}
 	add := func(expr, denotes string) { k.Vals = append(k.Vals, c18V(expr, c18TextCls(denotes))) }
@@ -1012,7 +1038,9 @@ func c18CharacterKind(thorough bool) *c18Kind {
 			if e := c18Quote(s); c18IsCharacter(s) && !seen[e] {
 				seen[e] = true
 				lit(s)
-				add(c18Quote("x"+s+"y")+"[1]", s)
+				if c18Embeds(s) {
+					add(c18Quote("x"+s+"y")+"[1]", s)
+				}
 			}
 		}
 	}
